@@ -974,6 +974,8 @@ class BaseMatcher:
                 logger.debug(f"Skip non-emitting states from {m.label}, already visited")
                 continue
             # == Move to neighbour edge from edge ==
+            # (Distances below are compared with a relative tolerance: an absolute one makes the
+            # result depend on the unit of the coordinates.)
             if m.edge_m.l2 is not None and self.only_edges:
                 nbrs = self.map.edges_nbrto((m.edge_m.l1, m.edge_m.l2))
                 # print("Neighbours for {}: {}".format(m, nbrs))
@@ -994,7 +996,7 @@ class BaseMatcher:
                         if m_next is not None:
                             if m_next.key in cur_lattice_new:
                                 if m_next.shortkey in lattice_best:
-                                    if approx_leq(m_next.dist_obs, lattice_best[m_next.shortkey].dist_obs):
+                                    if approx_leq(m_next.dist_obs, lattice_best[m_next.shortkey].dist_obs, rtol=1e-9, atol=0.0):
                                         cur_lattice_new[m_next.key].update(m_next)
                                     else:
                                         m_next.stop = True
@@ -1006,7 +1008,7 @@ class BaseMatcher:
                             else:
                                 if m_next.shortkey in lattice_best:
                                     # if m_next.logprob > lattice_best[m_next.shortkey].logprob:
-                                    if approx_leq(m_next.dist_obs, lattice_best[m_next.shortkey].dist_obs):
+                                    if approx_leq(m_next.dist_obs, lattice_best[m_next.shortkey].dist_obs, rtol=1e-9, atol=0.0):
                                         cur_lattice_new[m_next.key] = m_next
                                         # lattice_best[m_next.shortkey] = m_next
                                         # lattice_toinsert.append(m_next)
